@@ -369,6 +369,42 @@ def replay_shape(inputs):
     return {'reproduced': bool(bad), 'detail': f'group {grp} lattice {np.round(lat.parameters, 2).tolist()} site {np.round(sc, 3).tolist()} radius {radius:.3f}: ' + '; '.join(bad)}
 
 
+def replay_shape_exact(inputs):
+    """Dyadic set-up (8 A cubic cell, P-1, coordinates multiples of 1/16): a position exactly at the radius from a symmetry image is NOT
+    collected (strictly below the radius), and a site that no position comes near still gets its (empty) shape, in site order."""
+    import numpy as np
+    from pymatgen.core import Lattice, PeriodicSite
+    from pymatgen.symmetry.groups import SpaceGroup
+    from gemdat.shape import ShapeAnalyzer
+    lat = Lattice.cubic(8.0)
+    sg = SpaceGroup('P-1')
+    s0 = PeriodicSite('Li', [0.25, 0.25, 0.25], lat, label='A')
+    s1 = PeriodicSite('Li', [0.5, 0.0625, 0.9375], lat, label='B')   # nothing comes within the radius of this site or of its image
+    s2 = PeriodicSite('Li', [0.125, 0.75, 0.5], lat, label='C')
+    radius = 2.0
+    positions = np.array([[0.5, 0.25, 0.25],      # exactly 2.0 A from s0: not inside
+                          [0.4375, 0.25, 0.25],   # 1.5 A from s0: inside
+                          [0.75, 0.5, 0.75],      # exactly 2.0 A from the inversion image of s0 (0.75,0.75,0.75): not inside
+                          [0.75, 0.6875, 0.75],   # 0.5 A from that image: inside
+                          [0.125, 0.75, 0.625],   # 1.0 A from s2: inside
+                          [0.875, 0.25, 0.375]])  # 1.0 A from the image of s2 (0.875,0.25,0.5): inside
+    an = ShapeAnalyzer(sites=[s0, s1, s2], lattice=lat, spacegroup=sg)
+    bad = []
+    shapes = an.analyze_positions(positions, radius=radius)
+    if len(shapes) != 3:
+        bad.append(f'{len(shapes)} shapes returned for 3 sites (a site that is never visited must keep its place)')
+    else:
+        n = [len(sh.coords) for sh in shapes]
+        if n != [2, 0, 2]:
+            bad.append(f'points per site {n}, expected [2, 0, 2] (positions exactly at the radius are outside; site B is never visited)')
+        for sh, site in zip(shapes, (s0, s1, s2)):
+            if sh.site is not site and not np.allclose(sh.site.frac_coords, site.frac_coords):
+                bad.append('shapes are not in site order')
+            if len(sh.coords) and np.linalg.norm(sh.coords, axis=1).max() >= radius:
+                bad.append('a collected point is not strictly inside the radius')
+    return {'reproduced': bool(bad), 'detail': '; '.join(bad) or 'ok'}
+
+
 def bounded_shape(tier, seed):
     import numpy as np
     groups = ['P1', 'P-1', 'P2_1/c', 'Pnma', 'P4/mmm', 'P6_3/mmc', 'R-3m', 'Fm-3m', 'Ia-3d', 'C2/m']
@@ -376,6 +412,11 @@ def bounded_shape(tier, seed):
     st = Stand('C17.shape.bruteforce', f'{n} cases over space groups {groups} (offline pymatgen tables), sites near faces and within 1e-3 of special positions (with points on a thin shell around the sphere boundary), radii up to 0.49 x smallest perpendicular width, supercells up to 3 analysed twice on the same trajectory',
                'seeded random vs explicit-image brute force; non-trivial = group with > 2 operations or face site; distinct by input')
     rng = np.random.default_rng(seed + 1717)
+    r0 = st.guard(replay_shape_exact, {})
+    if r0 is not None:
+        st.case({'exact': True}, nontrivial=True)
+        if r0['reproduced']:
+            st.violation('shape-exact', r0['detail'], 'verif.props.c17:replay_shape_exact', {})
     for c in range(n):
         inp = {'seed': int(rng.integers(1, 10 ** 6)), 'group': groups[c % len(groups)], 'face_site': bool(c % 3 == 0), 'radius_fraction': float(rng.choice([0.2, 0.35, 0.49]))}
         if c % 5 == 4:
